@@ -9,6 +9,7 @@ def install(prog):
     from . import docstubs  # noqa
     from . import jwtstubs  # noqa
     from . import ropestubs  # noqa
+    from .. import conc  # noqa
     for m in (base, xmlstubs, cryptostubs, httpstubs, docstubs, jwtstubs, ropestubs):
         if hasattr(m, 'install'):
             m.install(prog)
